@@ -1,5 +1,6 @@
 import PandoraModel.Properties.C06
 import PandoraModel.Properties.C06Kernels
+import PandoraModel.Properties.C06KernelsLoop
 open Pandora.C06
 #print axioms flags_tied
 #print axioms source_literals
@@ -47,3 +48,10 @@ open Pandora.C06
 #print axioms Pandora.C06Kernels.kernel_pixel_spec
 #print axioms Pandora.C06Kernels.vfitMethod_nan_centre
 #print axioms Pandora.C06Kernels.quadraticMethod_nan_centre
+#print axioms Pandora.C06KernelsLoop.loopRefinementPx_eq
+#print axioms Pandora.C06KernelsLoop.loopRefinementGen_eq
+#print axioms Pandora.C06KernelsLoop.generated_pixel_spec
+#print axioms Pandora.C06KernelsLoop.loopRefinementPx_invalid
+#print axioms Pandora.C06KernelsLoop.loopApproxRefinementPx_invalid
+#print axioms Pandora.C06KernelsLoop.wiring_subpixel
+#print axioms Pandora.C06KernelsLoop.wiring_approximate
